@@ -400,6 +400,8 @@ class Parser(ExprParser):
             if self.have("COMMA"):
                 if self.have("VARARG"):
                     raise NotImplementedError("varargs")
+                if self.token.typ == "RPAREN":
+                    self.error_msg("Expected a parameter after ',', found RPAREN")
             else:
                 break
         self.mustbe("RPAREN")
